@@ -334,9 +334,30 @@ Proof. exact gate_blacklisted. Qed.
 Print Assumptions C18_gate_blacklisted.
 
 Theorem C18_gate_banned :
-  forall V C ip k s, is_banned s ip = true -> continue V C (PHs2 ip k) s = (PIdle, s, Some 1%N).
+  forall V C ip k s, skip_gate_p2 V = false ->
+  is_banned s ip = true -> continue V C (PHs2 ip k) s = (PIdle, s, Some 1%N).
 Proof. exact gate_banned. Qed.
 Print Assumptions C18_gate_banned.
+
+(* (5b) the ban is per ADDRESS, a pending challenge per CONNECTION: C18_gate_banned holds for EVERY handshake message
+   kind k - unknown id, first connection with any token, phase 1 (HP1 c) and phase 2 (HP2 c good) on ANY connection c,
+   whatever challenge that connection holds: banned at arrival => refused, shared state untouched (no failure counted, no
+   challenge consumed, no RecordSuccess).  The variant that skips the gate for phase-2 messages ("the connection passed
+   the check when its challenge was issued") is refuted: two connections of one address collect a challenge, two failures
+   ban the address (maxf = 2), the correct response on the second connection is accepted (4) while banned *)
+Theorem C18_gate_skipped_on_phase2_refuted :
+  exists C ip threads sched,
+    let s2 := runs skip_p2_variant C (init_sh, threads) sched in
+    maxf C = 2 /\ now (fst s2) = 0 /\ is_banned (fst s2) ip = true /\
+    nth_error (snd s2) 0 = Some (LProg PIdle [] [5; 5; 3; 3; 4; 1]%N).
+Proof. exact gate_skipped_on_phase2_refuted. Qed.
+Print Assumptions C18_gate_skipped_on_phase2_refuted.
+
+Theorem C18_gate_on_every_message_example :
+  let s2 := runs current_variant wit_cfg (init_sh, wit7_threads) (repeat O 20) in
+  nth_error (snd s2) 0 = Some (LProg PIdle [] [5; 5; 3; 3; 1; 1]%N).
+Proof. exact gate_on_every_message_same_schedule. Qed.
+Print Assumptions C18_gate_on_every_message_example.
 
 (* the two defects of the pinned tree, as schedule witnesses against statement (1) *)
 Theorem C18_pinned_unban_erases_reban_refuted :
